@@ -124,7 +124,7 @@ package restful
 // sort.Sort on a sortableCurlyRoutes: assumed to permute the elements and to
 // order them by Less, whose contract (proved) is curlyBefore and which is a
 // strict weak order (lemma C03.curly-less-swo).
-//@ func ext:sort.Sort/sortableCurlyRoutes
+//@ func ext:sort.Sort@sortableCurlyRoutes
 //@ props C01 C02 C03
 //@ trusted A-SORT: sort.Sort permutes the collection and leaves no later element strictly before an earlier one
 //@ modifies elems(data.(sortableCurlyRoutes))
@@ -363,3 +363,159 @@ package restful
 //@ opt opaque headerAllowed methodAllowed model_strings_Join model_strings_Trim model_splitPart model_splitCount
 //@ loop 0 invariant allowed: forall(0, it_i, func(k int) bool { return headerAllowed(*c, model_strings_Trim(model_splitPart(acrhs, ",", k), " ")) })
 //@ loop 0 invariant untouched: same(mapVal(hdrOf(resp.ResponseWriter)), old(mapVal(hdrOf(resp.ResponseWriter))))
+
+// ---------------------------------------------------------------------------
+// dispatch and its callees (C01 C02 C04 C06 C07 C10 C19)
+
+//@ func iface:RouteSelector.SelectRoute
+//@ props C01 C02 C04 C06 C07 C10 C18 C19
+//@ requires httpRequest != nil && httpRequest.URL != nil
+//@ ensures found: err == nil ==> selected != nil && selectedService != nil && wfRouteFns(selected) && wfServiceFns(selectedService)
+//@ ensures fresh: err == nil ==> fresh(selected)
+//@ modifies nothing
+//@ nopanic
+
+//@ func iface:PathProcessor.ExtractParameters
+//@ props C01 C02 C04 C06 C07 C10 C18 C19
+//@ requires route != nil && webService != nil
+//@ ensures fresh: result != nil && fresh(result)
+//@ modifies nothing
+//@ nopanic
+
+//@ func NewRequest
+//@ props C01 C04 C06 C19
+//@ ensures fresh: result != nil && fresh(result) && fresh(result.pathParameters) && fresh(result.attributes)
+//@ ensures init: result.Request == httpRequest && result.selectedRoute == nil
+//@ nopanic
+//@ modifies nothing
+
+//@ func (*Route).wrapRequestResponse
+//@ props C01 C04 C05 C06 C19
+//@ requires r != nil && httpRequest != nil
+//@ ensures req: result0 != nil && fresh(result0) && result0.Request == httpRequest && result0.selectedRoute == r && same(result0.pathParameters, pathParams)
+//@ ensures resp: result1 != nil && fresh(result1) && result1.ResponseWriter == httpWriter && same(result1.routeProduces, r.Produces) && result1.requestAccept == httpRequest.Header.Get("Accept")
+//@ ensures bookkeeping: result1.statusCode == 200 && result1.contentLength == 0
+//@ nopanic
+//@ modifies nothing
+
+//@ func (*Container).dispatch
+//@ props C01 C02 C04 C06 C07 C10 C12 C19
+//@ requires c != nil && httpWriter != nil && httpRequest != nil && httpRequest.URL != nil
+//@ requires wf: wfContainer(c)
+//@ requires unlocked: servicesLock(c) == 0
+//@ requires crw: !isCRW(httpWriter) || httpWriter.(*CompressingResponseWriter) != nil
+//@ modifies httpWriter.(*CompressingResponseWriter).compressor, headers, ghost $trace, ghost $g.held, ghost $g.ztarget, ghost $g.zclosed, ghost $g.accepted, ghost $g.lasterr, ghost $g.wcalls, ghost $g.wstatus, ghost $g.whcalls
+//@ ensures lock-balance: servicesLock(c) == 0
+//@ signals lock-balance: servicesLock(c) == 0
+//@ signals contained: c.doNotRecover || lastCallee(calls(), c.recoverHandleFunc)
+
+// ---------------------------------------------------------------------------
+// content encoding (C07, C13)
+
+// Interface contract of CompressorProvider: Acquire* returns an object nobody
+// holds and makes the caller its holder; Release* takes an object the caller
+// holds. Neither blocks. (Proved for BoundedCachedCompressors, assumed for sync.Pool.)
+//@ func iface:CompressorProvider.AcquireGzipWriter
+//@ props C07 C10 C13
+//@ modifies ghost $g.held
+//@ ensures result != nil && heldBy(result) == 1 && old(heldBy(result)) == 0
+//@ nopanic
+
+//@ func iface:CompressorProvider.AcquireZlibWriter
+//@ props C07 C10 C13
+//@ modifies ghost $g.held
+//@ ensures result != nil && heldBy(result) == 1 && old(heldBy(result)) == 0
+//@ nopanic
+
+//@ func iface:CompressorProvider.AcquireGzipReader
+//@ props C13 C16
+//@ modifies ghost $g.held
+//@ ensures result != nil && heldBy(result) == 1 && old(heldBy(result)) == 0
+//@ nopanic
+
+//@ func iface:CompressorProvider.ReleaseGzipWriter
+//@ props C07 C10 C13
+//@ requires held: heldBy(w) == 1
+//@ modifies ghost $g.held
+//@ ensures heldBy(w) == 0
+//@ nopanic
+
+//@ func iface:CompressorProvider.ReleaseZlibWriter
+//@ props C07 C10 C13
+//@ requires held: heldBy(w) == 1
+//@ modifies ghost $g.held
+//@ ensures heldBy(w) == 0
+//@ nopanic
+
+//@ func iface:CompressorProvider.ReleaseGzipReader
+//@ props C13 C16
+//@ requires held: heldBy(w) == 1
+//@ modifies ghost $g.held
+//@ ensures heldBy(w) == 0
+//@ nopanic
+
+//@ func ext:(*compress/gzip.Writer).Reset
+//@ props C07 C13
+//@ trusted A-CODEC: Reset binds the compressor to a new underlying writer and forgets earlier state
+//@ requires self != nil
+//@ modifies ghost $g.ztarget, ghost $g.zclosed
+//@ ensures resetTarget(self) == w && zClosed(self) == 0
+//@ nopanic
+
+//@ func ext:(*compress/zlib.Writer).Reset
+//@ props C07 C13
+//@ trusted A-CODEC
+//@ requires self != nil
+//@ modifies ghost $g.ztarget, ghost $g.zclosed
+//@ ensures resetTarget(self) == w && zClosed(self) == 0
+//@ nopanic
+
+//@ func iface:io.WriteCloser.Close
+//@ props C07 C10 C13
+//@ trusted A-CODEC: Close flushes the stream to the writer the compressor was Reset onto; it does not panic
+//@ modifies ghost $g.zclosed, ghost $g.accepted, ghost $g.lasterr, ghost $g.wcalls
+//@ ensures zClosed(self) == old(zClosed(self)) + 1
+//@ nopanic
+
+//@ func iface:io.WriteCloser.Write
+//@ props C07 C15
+//@ trusted A-CODEC: Write accepts a prefix of the plain bytes
+//@ modifies ghost $g.accepted, ghost $g.lasterr, ghost $g.wcalls
+//@ ensures 0 <= n && n <= len(p) && (err == nil ==> n == len(p))
+//@ nopanic
+
+//@ func wantsCompressedResponse
+//@ props C07 C10
+//@ requires httpRequest != nil && httpWriter != nil
+//@ ensures already: hdrOf(httpWriter).Get("Content-Encoding") != "" ==> !result0
+//@ ensures enc: result0 ==> (result1 == "gzip" || result1 == "deflate") && strings.Contains(httpRequest.Header.Get("Accept-Encoding"), result1)
+//@ ensures first: result0 && strings.Contains(httpRequest.Header.Get("Accept-Encoding"), "gzip") && strings.Contains(httpRequest.Header.Get("Accept-Encoding"), "deflate") ==> (result1 == "gzip") == (strings.Index(httpRequest.Header.Get("Accept-Encoding"), "gzip") < strings.Index(httpRequest.Header.Get("Accept-Encoding"), "deflate"))
+//@ ensures none: !result0 && hdrOf(httpWriter).Get("Content-Encoding") == "" ==> !strings.Contains(httpRequest.Header.Get("Accept-Encoding"), "gzip") && !strings.Contains(httpRequest.Header.Get("Accept-Encoding"), "deflate")
+//@ nopanic
+//@ modifies nothing
+
+//@ func NewCompressingResponseWriter
+//@ props C07 C10 C13
+//@ requires httpWriter != nil
+//@ modifies map hdrOf(httpWriter), ghost $g.held, ghost $g.ztarget, ghost $g.zclosed
+//@ ensures known: encoding == "gzip" || encoding == "deflate" ==> result1 == nil && result0 != nil && fresh(result0) && result0.writer == httpWriter && result0.encoding == encoding && result0.compressor != nil && validCRW(result0)
+//@ ensures acquired: encoding == "gzip" || encoding == "deflate" ==> resetTarget(result0.compressor) == httpWriter
+//@ ensures label: hdrOf(httpWriter).Get("Content-Encoding") == encoding
+//@ ensures unknown: encoding != "gzip" && encoding != "deflate" ==> result0 == nil && result1 != nil
+//@ nopanic
+
+// Representation invariant of CompressingResponseWriter: assumed whenever
+// package code reads such an object, proved wherever package code writes one
+// (its fields are unexported, so nothing else can).
+//@ typeinv CompressingResponseWriter: validCRW(self)
+
+//@ func (*CompressingResponseWriter).Close
+//@ props C07 C10 C13
+//@ requires c != nil
+//@ modifies c.compressor, ghost $g.held, ghost $g.zclosed, ghost $g.accepted, ghost $g.lasterr, ghost $g.wcalls
+//@ ensures open: old(c.compressor) != nil ==> result == nil && c.compressor == nil && heldBy(old(c.compressor)) == 0 && zClosed(old(c.compressor)) == old(zClosed(c.compressor)) + 1
+//@ ensures closed: old(c.compressor) == nil ==> result != nil && c.compressor == nil
+//@ nopanic
+
+// package variable: the provider is never nil (set in init, SetCompressorProvider refuses nil)
+//@ global invariant provider: currentCompressorProvider != nil
